@@ -749,13 +749,16 @@ fn c06_scenarios(tier: Tier) -> Vec<Scenario> {
         for call in [1000, 1001, 1002] {
             alpha.push(Action::TxFail { ops: small.clone(), call });
         }
+        // reading (and "committing" a reader) on a file with a torn slot writes nothing
+        alpha.push(Action::RoTx { ops: vec![OpSpec::put(&["b"], "k0", "v*8"), OpSpec::bucket("goc", &[], "fresh")] });
+        alpha.push(Action::RoCommit);
         // headers in the slots of the pinned release (a no-op unless the alternation rule changed), and
         // writes that are cut short before they fail
         alpha.push(Action::PinnedLayout);
         for call in 2..14 {
             alpha.push(Action::TxFail { ops: small.clone(), call: 3000 + call });
         }
-        let or2 = Oracles { rets: true, dump_after: true, fileck: true, dbcheck: true, ..Oracles::NONE };
+        let or2 = Oracles { rets: true, dump_after: true, fileck: true, dbcheck: true, no_trace: true, ..Oracles::NONE };
         let sc = Scenario::new("torn-slot-failing-commits", Cfg::default(), vec![tx(vec![OpSpec::bucket("create", &[], "b"), OpSpec::put(&["b"], "k0", "w*300"), OpSpec::put(&["b"], "k1", "w*300")]), tx(vec![OpSpec::put(&["b"], "k2", "w*300")])], Box::new(alpha), if q { 3 } else { 4 }, or2);
         out.push(sc);
     }
